@@ -16,7 +16,8 @@ BOUNDS = ("E2-R (SSE2 + scalar IR): lerp is a + (b-a)s (hence the endpoints and 
           "scalar-math Quat::slerp endpoints and hemisphere choice with sin/acos as symbols, any_orthogonal_vector / any_orthonormal_vector / any_orthonormal_pair (orthogonal, unit, "
           "both signs of z), from_rotation_arc(a,b)*a == b on the generic branch (homogenised: output parallel to q' = (a x b, 1 + a.b) and rot(q', a) = |q'|^2 b), from_rotation_arc_2d. "
           "E1 (bits, all finite inputs): lerp(a,b,0) == a and lerp(a,b,1) == b exactly; Quat::slerp(q, e, s) == Quat::slerp(q, -e, s) whenever dot != 0 (shorter-arc choice), SSE2 and "
-          "scalar, with sin kernels as uninterpreted functions. NOT decided: 'angle from start = s x total angle' (arc-length law), unit length of slerp results, never-overshoot as a "
+          "scalar, with sin kernels as uninterpreted functions; Vec3A::move_towards / clamp_length / clamp_length_max / clamp_length_min / midpoint == the Vec3 forms lane by lane for all inputs "
+          "(sqrt one shared uninterpreted function constrained by sound facts: r >= 0, NaN/0/inf fixed, r*r within 1e-6 of x on [1e-30, 1e30]). NOT decided: 'angle from start = s x total angle' (arc-length law), unit length of slerp results, never-overshoot as a "
           "metric statement, rotate_towards / vector slerp beyond 'no panic' (C18): they need inverse-trigonometric identities and error analysis; the SSE2 slerp body (m128_sin: "
           "round-to-integral range reduction) is not encodable in mode R.")
 ASSUMPTIONS = ["IEEE operations read as exact real operations (E2)", "sin(0) = 0, cos(0) = 1 for the slerp endpoint clauses"]
@@ -170,6 +171,20 @@ def harnesses(tier, cfg):
         L += [f'va!("{T}::lerp(a,b,1)[{i}] == b", r1.{LET[i]}.same({b[i]}));' for i in range(N)]
         L.append("}")
         hs.append(Harness(f"c12_{t.lname}_lerp_endpoints", "\n".join(L), backend="sat", desc=f"{T}::lerp returns the first operand exactly at s = 0 and the second exactly at s = 1 (all finite operands, IEEE-exact)", site=f"{T}::lerp", cap=300))
+    # Vec3A steering / clamping against Vec3 (whose formulas E2-R decides above; the Vec3A / 4-lane forms return `unknown` from nlsat there): the same expression in the same
+    # association on every back end, so the results agree as values for ALL inputs with sqrt as one shared uninterpreted function (SSE2 _mm_sqrt_ps and the scalar shim alike)
+    dr = "let a = Vec3::new(s.f32(), s.f32(), s.f32()); let b = Vec3::new(s.f32(), s.f32(), s.f32()); let d = s.f32(); let d2 = s.f32();"
+    for nm, call in (("move_towards", "move_towards({b}, d)"), ("clamp_length", "clamp_length(d, d2)"), ("clamp_length_max", "clamp_length_max(d)"), ("clamp_length_min", "clamp_length_min(d)"),
+                     ("midpoint", "midpoint({b})")):
+        # sound facts about a correctly rounded sqrt at the one argument these functions pass to it (non-negative; NaN, 0 and inf map to themselves; r*r within 1e-6 relative of the
+        # argument in [1e-30, 1e30], r <= 1e-14 below and r >= 1e14 above that range),
+        # so that a counterexample uses a realistic root and replays natively
+        arg = "(b - a).length_squared()" if nm == "move_towards" else "a.length_squared()"
+        ax = f"let l2 = {arg}; let rt = uf::sqrtf(l2); vassume!(!(l2 >= 0.0) || rt >= 0.0); vassume!(l2 == l2 || rt != rt); vassume!(l2 != 0.0 || rt == 0.0); vassume!(l2 != f32::INFINITY || rt == f32::INFINITY); vassume!(!(l2 >= 0.0 && l2 < 1e-30) || rt <= 1e-14); vassume!(!(l2 > 1e30) || rt >= 1e14); vassume!(!(l2 >= 1e-30 && l2 <= 1e30) || (rt * rt >= l2 * 0.999999 && rt * rt <= l2 * 1.000001));"
+        L = [dr, ax, f"let r = a.{call.format(b='b')}; let ra = Vec3A::from(a).{call.format(b='Vec3A::from(b)')};"]
+        L += [f'va!("Vec3A::{nm} == Vec3::{nm} [{l}]", ra.{l}.same(r.{l}));' for l in "xyz"]
+        hs.append(Harness(f"c12_vec3a_{nm}_vs_vec3", "\n".join(L), backend="smt", uf=("sqrt",), desc=f"Vec3A::{nm} returns the value Vec3::{nm} returns, lane by lane, for all inputs (thresholds, branch choice and "
+                          "rounding alike; sqrt uninterpreted and shared, constrained only by r >= 0 and r*r ~ x)", site=f"Vec3A::{nm}", cap=200))
     # (FloatExt::lerp on scalars is `a + (b - a) t`, which is not exact at t = 1 and overflows for huge operands; the property speaks of vector lerp only)
     # SSE2 Quat::slerp restated: hemisphere choice, lerp fallback threshold and the sin-weighted blend, with the SSE2 sine kernel (m128_sin) and acos_approx as
     # uninterpreted functions shared between the code and the restatement (one run, terms shared -> SMT)
